@@ -469,7 +469,9 @@ func extractComponentType(input string) (string, bool, tree.ParsingError) {
 	for _, v := range tree.IGComponentSymbols {
 		// Check whether component is contained - introduces tolerance to excess text (as opposed to exact matching)
 		if strings.Contains(input, v) {
-			if ret != "" {
+			// A property specification (e.g., 'Bdir,p') matches both the symbol of its component ('Bdir') and
+			// its own symbol ('Bdir,p'); only a different component type is a conflicting specification
+			if ret != "" && ret != v {
 				return ret, prop, tree.ParsingError{ErrorCode: tree.PARSING_ERROR_MULTIPLE_COMPONENTS_FOUND, ErrorMessage: "Multiple component specifications found (" + ret + " and " + v + ") " +
 					"when parsing component specification '" + input + "'."}
 			}
@@ -477,7 +479,9 @@ func extractComponentType(input string) (string, bool, tree.ParsingError) {
 			ret = v
 			// Test whether component of concern is a property
 			if strings.Contains(input, tree.PROPERTY_SYNTAX_SUFFIX) {
-				ret += tree.PROPERTY_SYNTAX_SUFFIX
+				if !strings.HasSuffix(ret, tree.PROPERTY_SYNTAX_SUFFIX) {
+					ret += tree.PROPERTY_SYNTAX_SUFFIX
+				}
 				prop = true
 			}
 			// continue iteration to check whether conflicting identification of component (i.e., multiple component labels)
